@@ -67,6 +67,7 @@ func runBac(termInfo, chipInfo, otherInfo, source string, seed int64, termRand f
 	newChip := func() *chipsim.Chip {
 		dg1 := chipsim.BuildDG1("X")
 		chip, err := chipsim.New(chipsim.Config{AppFiles: map[uint16][]byte{0x0101: dg1, 0x011E: chipsim.BuildCOM("0107", "040000", []byte{0x61})},
+			MfFiles: map[uint16][]byte{0x011C: append([]byte{0x31, 0x4E}, bytes.Repeat([]byte{0x30, 0x0B, 0x06, 0x09, 0x04, 0x00, 0x7F, 0x00, 0x07, 0x02, 0x02, 0x02, 0x63}, 6)...)},
 			MRZInfo: chipInfo, EnableBAC: true, RequireAccessControl: true, Transport: chipsim.Transport{ExtendedLength: true}, Rand: rnd})
 		if err != nil {
 			core.Infra("chipsim.New: %v", err)
@@ -92,6 +93,13 @@ func runBac(termInfo, chipInfo, otherInfo, source string, seed int64, termRand f
 	}
 	chip := newChip()
 	s := sim.NewPlain(chip)
+	if seed%2 == 0 {
+		// history before BAC: a plain read of EF.CardAccess on the same session, as a reader does (the answers of
+		// earlier exchanges are longer than anything BAC receives)
+		if data, err := s.Nfc.ReadFile(0x011C); err != nil || len(data) != 80 {
+			core.Infra("C05: plain read of EF.CardAccess before BAC failed: %v (%d octets)", err, len(data))
+		}
+	}
 	if ok, err := s.Nfc.SelectAid(chipsim.AIDLDS1); err != nil || !ok {
 		core.Infra("C05: SELECT application failed: %v", err)
 	}
